@@ -222,6 +222,22 @@ def run(ctx):
         ctx.count("tracked_path_columns_flipped", pflips)
         if pprob:
             ctx.corr_mismatch("track", pspec, pprob)
+    # directed: TWO trajectories interleaved on one truncated model, one walking up and one walking down the stretch where LAPACK's
+    # native eigenvector signs change: each point is continued from the previous point of ITS OWN trajectory (two calls back)
+    for j in range(ctx.budget(2, 10)):
+        spec = {"name": "shin-metiu", "kwargs": {"nel": 32, "nstates": int(rng.integers(3, 6))}}
+        up = np.linspace(-6.2 - 0.05 * rng.random(), -4.8 + 0.05 * rng.random(), 8)
+        down = up[::-1] + 0.013
+        ops = []
+        for k in range(16):
+            xs_ = up if k % 2 == 0 else down
+            ops.append((k, [float(xs_[k // 2])], (k - 2 if k >= 2 else None), "model"))
+        a = {"spec": spec, "ops": [list(o) for o in ops]}
+        ok, obs, req, text = oracle_script(a)
+        ctx.case(("shin-metiu-interleaved", spec["kwargs"]["nstates"]))
+        ctx.count("directed_interleaved_paths_through_native_sign_changes")
+        if not ok:
+            ctx.oracle_fail("update-script:shin-metiu", "script", a, obs, req, text)
     outs = ctx.model.run(lines)
     for (spec, el, prev, cf, N, n), o in zip(keep, outs):
         vals = np.array([unfb(t) for t in o[1:1 + N * N]]).reshape(N, N)
